@@ -28,6 +28,7 @@ type Prog struct {
 	relCache map[string]bool
 	fdCache  map[string]*FieldDecl
 	depCache map[string]map[*ssa.Function]bool
+	depIface map[string]map[string]bool // prop -> "pkgpath::Iface.Method" invoked by the property's functions
 }
 
 func loadProg(repo string, patterns []string) *Prog {
